@@ -37,13 +37,14 @@ Proof.
   all: xrun ltac:(first [rewrite lget_lset_same | rewrite lget_lset_other by discriminate]).
 Qed.
 
-Lemma body_fail : forall m extra fs ps fr code mg fsg psg s1,
+Lemma body_fail : forall m extra fs ps fr code mg fsg psg M1 l1 fs1 oa1 fpv1 outv1 keyv1 pe1 fr1,
   do_prim (mk m (gl extra) fs ps fr) "getopt_long" [] = Ok (Some (VInt code), mk mg (gl extra) fsg psg fr) ->
   0 <= code < 128 ->
-  exec cli_prog [] 170 po_body (mk mg (po_loc code) fsg psg fr) = Ok (Returned (Some (VInt 0)), s1) ->
+  exec cli_prog [] 170 po_body (mk mg (po_loc code) fsg psg fr) = Ok (Returned (Some (VInt 0)), mk M1 l1 fs1 (pps oa1 fpv1 outv1 keyv1 pe1) fr1) ->
+  pv fpv1 -> pv outv1 ->
   exists s', exec cli_prog [] 180 loop_body (mk m (gl extra) fs ps fr) = Ok (Returned (Some VNull), s').
 Proof.
-  intros m extra fs ps fr code mg fsg psg s1 Hprim Hcode Hpo.
+  intros m extra fs ps fr code mg fsg psg M1 l1 fs1 oa1 fpv1 outv1 keyv1 pe1 fr1 Hprim Hcode Hpo Hpf Hpo1.
   assert (E1 : (code =? -1) = false) by (apply Z.eqb_neq; lia).
   assert (W : wrap I8 code = code) by (apply wrap_I8_small; lia).
   eexists. unfold loop_body, gv_loop. cbn [seq_drop gv_body f_body Src_cli.f_get_v_opt_2]. unfold mk, gl in *.
@@ -52,6 +53,8 @@ Proof.
   all: xrun ltac:(first [rewrite lget_lset_same | rewrite lget_lset_other by discriminate | rewrite E1 | rewrite W]).
   { eapply x_call; [evr2 ltac:(first [rewrite lget_lset_same | rewrite lget_lset_other by discriminate | rewrite W]); reflexivity
                    | reflexivity | reflexivity | eapply exec_mono; [exact Hpo|lia] | stn]. }
+  all: xrun ltac:(first [rewrite lget_lset_same | rewrite lget_lset_other by discriminate]).
+  { apply (closeFiles_call _ M1 _ fs1 oa1 fpv1 outv1 keyv1 pe1 fr1); [reflexivity | lia | assumption | assumption]. }
   all: xrun ltac:(first [rewrite lget_lset_same | rewrite lget_lset_other by discriminate]).
   all: xrun ltac:(first [rewrite lget_lset_same | rewrite lget_lset_other by discriminate]).
   all: xrun ltac:(first [rewrite lget_lset_same | rewrite lget_lset_other by discriminate]).
@@ -108,6 +111,11 @@ Proof.
   destruct H as (j & E & Hj & G). exists j. split; [exact E|]. split; [lia|]. rewrite Hm by exact Hj. exact G.
 Qed.
 
+Lemma vrel_pv : forall v b, vrel v b -> pv v.
+Proof. intros v [|] H; cbn [vrel] in H; [destruct H as (nm & ->)|subst v]; exact Logic.I. Qed.
+
+Ltac pvs I := first [exact Logic.I | exact (vrel_pv _ _ (i_fp _ _ _ _ _ _ _ _ I)) | exact (vrel_pv _ _ (i_out _ _ _ _ _ _ _ _ I))].
+
 (* mode tokens *)
 Lemma step_mode : forall t code p lng dl m fpv outv keyv fr done todo fdone ftodo extra oa pe,
   In (t, code) [(T_e, 101); (T_d, 100); (T_v, 118); (T_V, 86); (T_h, 104)] ->
@@ -130,7 +138,7 @@ Proof.
     + rewrite app_length. cbn [List.length]. exact Hb.
     + destruct I. constructor; cbn [mode ctype htype fp out key no_echo dflt_ok]; mgo; auto.
       eapply krel_frame; [eassumption|lia|]. intros j Hj. mgo. reflexivity.
-  - destruct (body_fail _ _ _ _ _ _ _ _ _ _ Hg Hcr (exec_mono _ _ _ _ _ _ Hp 170%nat ltac:(lia))) as (s' & Hb).
+  - destruct (body_fail _ _ _ _ _ _ _ _ _ _ _ _ _ _ _ _ _ _ Hg Hcr (exec_mono _ _ _ _ _ _ Hp 170%nat ltac:(lia))) as (s' & Hb); try solve [pvs I].
     exists s'. exact Hb.
 Qed.
 
@@ -155,15 +163,16 @@ Proof.
 Qed.
 
 Lemma step_other : forall p lng dl m fpv outv keyv fr done todo fdone ftodo extra oa pe,
+  Inv p lng dl m fpv outv keyv fr ->
   step_goal T_other p lng dl m fpv outv keyv fr done todo fdone ftodo extra oa pe.
 Proof.
-  intros p lng dl m fpv outv keyv fr done todo fdone ftodo extra oa pe.
+  intros p lng dl m fpv outv keyv fr done todo fdone ftodo extra oa pe I.
   unfold step_goal. cbn [trec tfop conc_tok fst snd opt_record map parse_one dl_next app].
   pose proof (prim_getopt_noarg m (gl extra) (done ++ 63 :: 0 :: todo) (List.length done) (fdone ++ ftodo) (List.length fdone) oa
                 ([("#0", fpv); ("#0@8", outv); ("#0@16", keyv)] ++ pe) fr done 63 todo eq_refl eq_refl) as Hg.
   destruct (po_other m (gfiles (done ++ 63 :: 0 :: todo) (List.length done + 2) (fdone ++ ftodo) (List.length fdone))
               (pps VNull fpv outv keyv pe) fr) as (l' & Hp).
-  destruct (body_fail _ _ _ _ _ _ _ _ _ _ Hg ltac:(lia) (exec_mono _ _ _ _ _ _ Hp 170%nat ltac:(lia))) as (s' & Hb).
+  destruct (body_fail _ _ _ _ _ _ _ _ _ _ _ _ _ _ _ _ _ _ Hg ltac:(lia) (exec_mono _ _ _ _ _ _ Hp 170%nat ltac:(lia))) as (s' & Hb); try solve [pvs I].
   exists s'. exact Hb.
 Qed.
 
@@ -192,13 +201,13 @@ Proof.
   set (a := argname (List.length done)) in *.
   set (m1 := mset m a (txt_obj (map Z.of_N (str "o")))) in *.
   destruct (po_o m1 D (List.length (done ++ opt_record (111, Some (str "o")))) (fdone ++ [b2z b] ++ ftodo) (List.length fdone)
-              (VPtr a 0) fpv outv keyv pe fr fdone b ftodo eq_refl eq_refl) as (l' & Hp).
+              (VPtr a 0) fpv outv keyv pe fr fdone b ftodo eq_refl eq_refl (vrel_pv _ _ (i_out _ _ _ _ _ _ _ _ I))) as (l' & Hp).
   destruct b.
   - destruct (body_ok _ _ _ _ _ _ _ _ _ _ _ _ _ _ Hg ltac:(lia) (exec_mono _ _ _ _ _ _ Hp 170%nat ltac:(lia))) as (extra' & Hb).
     exists lng. do 8 eexists. split.
     + rewrite (app_length fdone). cbn [List.length]. rewrite Nat.add_1_r. exact Hb.
     + unfold m1, a. inv_tac I. eexists; reflexivity.
-  - destruct (body_fail _ _ _ _ _ _ _ _ _ _ Hg ltac:(lia) (exec_mono _ _ _ _ _ _ Hp 170%nat ltac:(lia))) as (s' & Hb).
+  - destruct (body_fail _ _ _ _ _ _ _ _ _ _ _ _ _ _ _ _ _ _ Hg ltac:(lia) (exec_mono _ _ _ _ _ _ Hp 170%nat ltac:(lia))) as (s' & Hb); try solve [pvs I].
     exists s'. exact Hb.
 Qed.
 
@@ -224,9 +233,10 @@ Proof.
               eq_refl eq_refl) as (l' & fc' & Hfl' & Hp); try assumption.
   1-5: unfold m1, a; mgo; try (apply (i_res _ _ _ _ _ _ _ _ I)); try (apply (i_ftl _ _ _ _ _ _ _ _ I)); auto.
   1-3: unfold a; neq.
+  1: exact (vrel_pv _ _ (i_fp _ _ _ _ _ _ _ _ I)).
   cbv zeta in Hp. rewrite Hlz in Hp.
   destruct f as [|  |kid]; cbn [bf] in *.
-  - destruct (body_fail _ _ _ _ _ _ _ _ _ _ Hg ltac:(lia) (exec_mono _ _ _ _ _ _ Hp 170%nat ltac:(lia))) as (s' & Hb).
+  - destruct (body_fail _ _ _ _ _ _ _ _ _ _ _ _ _ _ _ _ _ _ Hg ltac:(lia) (exec_mono _ _ _ _ _ _ Hp 170%nat ltac:(lia))) as (s' & Hb); try solve [pvs I].
     exists s'. exact Hb.
   - destruct (body_ok _ _ _ _ _ _ _ _ _ _ _ _ _ _ Hg ltac:(lia) (exec_mono _ _ _ _ _ _ Hp 170%nat ltac:(lia))) as (extra' & Hb).
     exists long. do 8 eexists. split.
@@ -252,7 +262,7 @@ Proof.
               fpv outv keyv pe fr) as (M' & l' & Hp & HM).
   1-4: unfold m1, a; mgo; destruct I; auto.
   1-3: unfold a; neq.
-  destruct (body_fail _ _ _ _ _ _ _ _ _ _ Hg ltac:(lia) (exec_mono _ _ _ _ _ _ Hp 170%nat ltac:(lia))) as (s' & Hb).
+  destruct (body_fail _ _ _ _ _ _ _ _ _ _ _ _ _ _ _ _ _ _ Hg ltac:(lia) (exec_mono _ _ _ _ _ _ Hp 170%nat ltac:(lia))) as (s' & Hb); try solve [pvs I].
   exists s'. exact Hb.
 Qed.
 
@@ -308,13 +318,13 @@ Proof.
   rewrite WB in Hp.
   destruct (ctype p =? -1) eqn:E1; cbn [andb] in Hp.
   - destruct ((n <? 0) || (127 <? n)) eqn:E2; cbn [negb] in Hp.
-    + destruct (body_fail _ _ _ _ _ _ _ _ _ _ Hg ltac:(lia) (exec_mono _ _ _ _ _ _ Hp 170%nat ltac:(lia))) as (s' & Hb).
+    + destruct (body_fail _ _ _ _ _ _ _ _ _ _ _ _ _ _ _ _ _ _ Hg ltac:(lia) (exec_mono _ _ _ _ _ _ Hp 170%nat ltac:(lia))) as (s' & Hb); try solve [pvs I].
       exists s'. exact Hb.
     + destruct (body_ok _ _ _ _ _ _ _ _ _ _ _ _ _ _ Hg ltac:(lia) (exec_mono _ _ _ _ _ _ Hp 170%nat ltac:(lia))) as (extra' & Hb).
       apply orb_false_iff in E2. destruct E2 as [E2 E3].
       exists lng. do 8 eexists. split; [exact Hb|].
       unfold m1, a. inv_tac I; try lia. rewrite (Z.mod_small n 256) by lia. reflexivity.
-  - destruct (body_fail _ _ _ _ _ _ _ _ _ _ Hg ltac:(lia) (exec_mono _ _ _ _ _ _ Hp 170%nat ltac:(lia))) as (s' & Hb).
+  - destruct (body_fail _ _ _ _ _ _ _ _ _ _ _ _ _ _ _ _ _ _ Hg ltac:(lia) (exec_mono _ _ _ _ _ _ Hp 170%nat ltac:(lia))) as (s' & Hb); try solve [pvs I].
     exists s'. exact Hb.
 Qed.
 
@@ -338,13 +348,13 @@ Proof.
   rewrite WB in Hp.
   destruct (htype p =? -1) eqn:E1; cbn [andb] in Hp.
   - destruct ((n <? 0) || (127 <? n)) eqn:E2; cbn [negb] in Hp.
-    + destruct (body_fail _ _ _ _ _ _ _ _ _ _ Hg ltac:(lia) (exec_mono _ _ _ _ _ _ Hp 170%nat ltac:(lia))) as (s' & Hb).
+    + destruct (body_fail _ _ _ _ _ _ _ _ _ _ _ _ _ _ _ _ _ _ Hg ltac:(lia) (exec_mono _ _ _ _ _ _ Hp 170%nat ltac:(lia))) as (s' & Hb); try solve [pvs I].
       exists s'. exact Hb.
     + destruct (body_ok _ _ _ _ _ _ _ _ _ _ _ _ _ _ Hg ltac:(lia) (exec_mono _ _ _ _ _ _ Hp 170%nat ltac:(lia))) as (extra' & Hb).
       apply orb_false_iff in E2. destruct E2 as [E2 E3].
       exists lng. do 8 eexists. split; [exact Hb|].
       unfold m1, a. inv_tac I; try lia. rewrite (Z.mod_small n 256) by lia. reflexivity.
-  - destruct (body_fail _ _ _ _ _ _ _ _ _ _ Hg ltac:(lia) (exec_mono _ _ _ _ _ _ Hp 170%nat ltac:(lia))) as (s' & Hb).
+  - destruct (body_fail _ _ _ _ _ _ _ _ _ _ _ _ _ _ _ _ _ _ Hg ltac:(lia) (exec_mono _ _ _ _ _ _ Hp 170%nat ltac:(lia))) as (s' & Hb); try solve [pvs I].
     exists s'. exact Hb.
 Qed.
 
@@ -366,7 +376,7 @@ Proof.
   - apply step_k_valid, I.
   - apply step_cmode; [exact Hok|exact I].
   - apply step_hmode; [exact Hok|exact I].
-  - apply step_other.
+  - apply step_other, I.
 Qed.
 
 (* getopt_long at the end of the stream: the loop is left *)
